@@ -119,3 +119,50 @@ prop("C19",
      "Numeric results and overflow behaviour; Python `//` floors where C++ `/` truncates for negative integers and MATLAB `./` rounds integers "
      "(cross-language differences in the meaning of the reference tokens themselves: recorded in DESIGN.md, not decidable or repairable here).",
      COMMON_ASSUME + ["refs/operators.json names, per target language, the operator with the mathematical meaning for in-range operands"])
+
+prop("C03",
+     "Structural clauses of cross-language portability: (L1/L2) link check — every runtime symbol that occurs in a generator template (computed names "
+     "expanded over the 18 primitives) is defined in the runtime that ships with it: python module-level names (ast), MATLAB +binary/<Name>.m, C++ "
+     "declarations (clang AST); (G1) all back ends follow one serialization plan (same rule as C14); (PB1) every unchecked byte write of the Python "
+     "output stream has capacity established on every path since the last buffer-consuming call; (PA1) no view into the Python reader's reusable "
+     "buffer escapes without a copy.",
+     "Byte identity of streams produced by different languages; behaviour of the MATLAB runtime (no parser for .m files here: only file existence is checked).",
+     COMMON_ASSUME)
+
+prop("C01",
+     "Structural clauses of the binary round trip and wire-format conformance: (G1/G3) the C++ generator follows the shared serialization plan and "
+     "record field order; (G2) one plan for both directions — every row of the C++ rw-function generators that depends on `write` has a Write/Read twin "
+     "with identical guards and arguments, all others take the direction through verb(write); (G4, PW1) the primitive wire tables of the C++ generator "
+     "and of the Python runtime equal refs/wire.json (docs/reference/binary.md); (SR2, clang AST) every yardl::binary::WriteX in serializers.h has a "
+     "ReadX with the same ordered stream operations; (CB1/CB2, clang AST + interval domain) every access through buffer_ptr_ in coded_stream.h is covered "
+     "by a capacity/availability test on every path; (B1/B2/B3, PS1) stream framing: Write/ReadBlock pairing, no zero-length block except the terminator, "
+     "terminator behind the per-version switch.",
+     "Value equality, NaN/UTF-8 payloads, the memcpy fast path of generated records (depends on C++ object layout), HDF5.",
+     COMMON_ASSUME + ["cxxstubs/yardl.h declares the third-party array/date types only so that clang can parse yardl's own headers",
+                      "the staging buffers are at least 10 bytes long (default 65536)"])
+
+prop("C15",
+     "Structural clauses of 'readers refuse foreign streams': (PH1, python AST) BinaryProtocolReader/NDJsonProtocolReader compare magic/first line, "
+     "version and schema with `!=` and raise, in stream order, before anything else is read; (SR3, clang AST) header.h ReadHeader compares magic and "
+     "version with `!=` and throws before reading the schema, BinaryReader constructors keep the schema read; (H1, GEE) generated C++ reader constructors "
+     "pass schema_read_ to VersionFromSchema, whose emitted text compares with the current and every previous schema and ends in an unconditional throw; "
+     "generated Python readers pass <Reader>.schema to the runtime reader.",
+     "The C++ NDJSON header check (nlohmann/json not installed → not parseable), MATLAB readers, and that two different encodings never share a schema (see C04).",
+     COMMON_ASSUME)
+
+prop("C16",
+     "Structural clauses of 'truncation is reported': (CB1, clang AST + forward availability analysis) every read through buffer_ptr_ in CodedInputStream "
+     "has enough bytes established AFTER the last FillBuffer on every path, where FillBuffer's post-condition is derived from its body; (PE1, python AST) "
+     "CodedInputStream refills with the matching byte count before every buffer access, _fill_buffer raises below min_count and every method that calls "
+     "readinto examines the count and can raise EOFError; (SR4/B3) a stream ends only at an explicit zero block count which the writer emits through the "
+     "per-version switch, ReadBlock refills only at zero and returns false on a zero count.",
+     "Which values were delivered before the error; C++ NDJSON reader; the underlying std::istream / Python file object semantics.",
+     COMMON_ASSUME + ["the staging buffers are at least 10 bytes long (default 65536)"])
+
+prop("C17",
+     "Structural clauses of batching independence: (SR1, clang AST) every ReadX of serializers.h fully overwrites a reused destination — the first operation on "
+     "a container destination is an unconditional resize/clear/assignment or it is handed whole to another reader, nothing is accumulated; (SR4) ReadBlock "
+     "decrements current_block_remaining by one per item and refills only at zero; (B1, PS1) neither the C++ generated batch write nor the Python "
+     "StreamSerializer emits a zero-length block for an empty batch; (B2) single and batch read/write use paired framing routines with the same element routine.",
+     "Block arithmetic of ReadBlocksIntoVector for all capacities (table exception with its invariant stated), generated NDJSON from_json for records, Python iterables.",
+     COMMON_ASSUME)
